@@ -71,6 +71,24 @@ class _R(ReactorBase):
         return self.now
 
 
+try:
+    from crosshair.tracers import NoTracing as _NoTracing, is_tracing as _is_tracing
+except ImportError:     # replay interpreter without CrossHair
+    _NoTracing = None
+
+
+def _mk_reactor(now):
+    # ReactorBase.__init__ (event triggers, resolver set-up) is concrete and independent of the inputs:
+    # run it outside the symbolic tracer to save per-path time; the clock value is assigned afterwards
+    if _NoTracing is not None and _is_tracing():
+        with _NoTracing():
+            R = _R(0.0)
+    else:
+        R = _R(0.0)
+    R.now = now
+    return R
+
+
 def _pick(v, lo, hi):
     # concrete case split driven by the solver: returns a concrete int equal to v
     for x in range(lo, hi):
@@ -87,7 +105,7 @@ class _W:
     (they follow the real code's own decisions), only times are symbolic."""
 
     def __init__(self, now):
-        self.R = _R(now)
+        self.R = _mk_reactor(now)
         self.dc = []        # real DelayedCall
         self.mt = []        # model: scheduled time
         self.ms = []        # model: 0 pending, 1 called, 2 cancelled
@@ -133,6 +151,9 @@ class _W:
         if act == 4:
             self.call_later(r)
             return
+        if act == 5:    # schedule a call and cancel it at once (a timeout that is not needed after all)
+            tgt = self.call_later(r)
+            act = 1
         exp = self.ms[tgt]
         c = self.dc[tgt]
         try:
@@ -236,9 +257,8 @@ def _inv(R):
             cnt += 1
         else:
             ok = ok & (x.delayed_time >= 0)
-        for b in range(a):
-            if allc[b] is x:
-                return False
+    if len(set([id(x) for x in allc])) != len(allc):
+        return False        # an entry is queued twice
     if not (R._cancellations <= cnt):
         return False
     return ok
@@ -281,9 +301,163 @@ def history(t0: float, n: int, d0: float, d1: float, d2: float, d3: float, tm: b
     return bool(W.ok)
 
 
+def _state_pre(k, m, cm, drift, ts, ls, us, vs):
+    # bounds and the representation invariant of the pre-state (symbolic; & keeps it to one constraint)
+    ok = (0 <= k) & (k <= B['k']) & (0 <= m) & (m <= B['m']) & (0 <= cm) & (drift >= 0)
+    for i in range(5):
+        ok = ok & (-BIG <= ts[i]) & (ts[i] <= BIG) & (0 <= ls[i]) & (ls[i] <= BIG)
+    for i in range(2):
+        ok = ok & (-BIG <= us[i]) & (us[i] <= BIG) & (0 <= vs[i]) & (vs[i] <= BIG)
+    for p in range(1, 5):
+        ok = ok & ((k <= p) | (ts[(p - 1) >> 1] <= ts[p]))      # heap order on .time
+    return ok
+
+
+def _build(now, k, m, cm, drift, ts, ls, us, vs, pads):
+    W = _W(now)
+    R = W.R
+    ncanc = 0
+    for i in range(k):
+        c = (cm >> i) & 1
+        ncanc += c
+        W.adopt(ts[i], ls[i], c, False)
+    for i in range(m):
+        c = (cm >> (k + i)) & 1
+        ncanc += c
+        W.adopt(us[i], vs[i], c, True)
+    if pads:
+        W.residue = True
+        if _NoTracing is not None and _is_tracing():
+            with _NoTracing():
+                _pad(R, pads)
+        else:
+            _pad(R, pads)
+        ncanc += pads
+    R._cancellations = ncanc - drift
+    return W
+
+
+def _pad(R, pads):
+    for _ in range(pads):
+        c = DelayedCall(FAR, None, (), {}, R._cancelCallLater, R._moveCallLaterSooner, seconds=R.seconds)
+        c.cancelled = 1
+        del c.func, c.args, c.kw
+        R._pendingTimedCalls.append(c)
+
+
+def step_op(now: float, k: int, m: int, cm: int, drift: int,
+            t0: float, t1: float, t2: float, t3: float, t4: float,
+            l0: float, l1: float, l2: float, l3: float, l4: float,
+            u0: float, u1: float, v0: float, v1: float,
+            act: int, tgt: int, r: float) -> bool:
+    """
+    pre: _state_pre(k, m, cm, drift, (t0, t1, t2, t3, t4), (l0, l1, l2, l3, l4), (u0, u1), (v0, v1))
+    pre: cm < 2 ** (k + m) and -BIG <= now <= BIG and -BIG <= r <= BIG
+    pre: 0 <= act <= 4 and (r >= 0 or act == 3)
+    pre: 0 <= tgt < k + m or (tgt == 0 and (act == 0 or act == 4))
+    post: _
+    """
+    k = _pick(k, 0, B['k'])
+    m = _pick(m, 0, B['m'])
+    cm = _pick(cm, 0, 2 ** (k + m) - 1)
+    act = _pick(act, 0, 4)
+    tgt = _pick(tgt, 0, max(0, k + m - 1))
+    W = _build(now, k, m, cm, drift, (t0, t1, t2, t3, t4), (l0, l1, l2, l3, l4), (u0, u1), (v0, v1), 0)
+    c0 = W.R._cancellations
+    W.modify(act, tgt, r)       # act 0: nothing, the step is timeout() alone
+    W.check()
+    if act == 1 and cm >> tgt & 1 == 0 and W.R._cancellations != c0 + 1:
+        return False
+    W.check_timeout()
+    W.check()
+    cover()
+    return bool(W.ok)
+
+
+def step_run(now: float, k: int, m: int, cm: int, drift: int,
+             t0: float, t1: float, t2: float, t3: float, t4: float,
+             l0: float, l1: float, l2: float, l3: float, l4: float,
+             u0: float, u1: float, v0: float, v1: float,
+             who: int, act: int, tgt: int, r: float) -> bool:
+    """
+    pre: _state_pre(k, m, cm, drift, (t0, t1, t2, t3, t4), (l0, l1, l2, l3, l4), (u0, u1), (v0, v1))
+    pre: cm < 2 ** (k + m) and -BIG <= now <= BIG and -BIG <= r <= BIG
+    pre: 0 <= act <= 5 and (r >= 0 or act == 3) and 1 <= k + m
+    pre: 0 <= who < k + m and (0 <= tgt < k + m) and (act != 0 or who + tgt == 0)
+    post: _
+    """
+    k = _pick(k, 0, B['k'])
+    m = _pick(m, 0, B['m'])
+    cm = _pick(cm, 0, 2 ** (k + m) - 1)
+    act = _pick(act, 0, 5)
+    who = _pick(who, 0, k + m - 1)
+    tgt = _pick(tgt, 0, k + m - 1)
+    W = _build(now, k, m, cm, drift, (t0, t1, t2, t3, t4), (l0, l1, l2, l3, l4), (u0, u1), (v0, v1), 0)
+    d0 = W.R._cancellations - sum(W.ms[j] == 2 for j in range(k + m))
+    W.inner = (who, act, tgt, r)
+    W.iterate()
+    W.check()
+    # no compaction can happen here (<= 7 cancellations): the lazy-deletion count keeps its offset
+    if W.R._cancellations - _ncancelled(W.R) != d0:
+        return False
+    W.check_timeout()
+    W.check()
+    cover()
+    return bool(W.ok)
+
+
+def _ncancelled(R):
+    return sum(1 for x in R._pendingTimedCalls + R._newTimedCalls if x.cancelled)
+
+
+def step_compact(now: float, k: int, m: int, cm: int, drift: int,
+                 t0: float, t1: float, t2: float, t3: float, t4: float,
+                 l0: float, l1: float, l2: float, l3: float, l4: float,
+                 u0: float, u1: float, v0: float, v1: float,
+                 who: int, act: int, tgt: int, r: float) -> bool:
+    """
+    pre: _state_pre(k, m, cm, drift, (t0, t1, t2, t3, t4), (l0, l1, l2, l3, l4), (u0, u1), (v0, v1))
+    pre: cm < 2 ** (k + m) and -BIG <= now <= BIG and -BIG <= r <= BIG
+    pre: (act == 0 or act == 1 or act == 5) and r >= 0 and 1 <= k + m and drift <= 2
+    pre: 0 <= who < k + m and (0 <= tgt < k + m) and (act != 0 or who + tgt == 0)
+    post: _
+    """
+    k = _pick(k, 0, B['k'])
+    m = _pick(m, 0, B['m'])
+    cm = _pick(cm, 0, 2 ** (k + m) - 1)
+    act = _pick(act, 0, 5)
+    who = _pick(who, 0, k + m - 1)
+    tgt = _pick(tgt, 0, k + m - 1)
+    drift = _pick(drift, 0, 2)
+    W = _build(now, k, m, cm, drift, (t0, t1, t2, t3, t4), (l0, l1, l2, l3, l4), (u0, u1), (v0, v1), PADS)
+    W.inner = (who, act, tgt, r)
+    W.iterate()
+    R = W.R
+    if len(R._pendingTimedCalls) < PADS:
+        # compacted: every cancelled heap entry is gone, every pending call is still there (check())
+        cover("compacted")
+        if R._cancellations != 0 or any(x.cancelled for x in R._pendingTimedCalls):
+            return False
+    else:
+        # not compacted: only legitimate when the count was not above the thresholds
+        if R._cancellations > 50 and R._cancellations > len(R._pendingTimedCalls) >> 1:
+            return False
+    W.check()
+    W.check_timeout()
+    W.check()
+    cover()
+    return bool(W.ok)
+
+
 HARNESSES = [
     H(history, shards=lambda tier: [("act == %d" % a, "who == %d" % w)
                                     for a in range(5) for w in range(-1, BOUNDS[tier]["n"])
                                     if not (a == 0 and w >= 0)],
       timeout={"quick": 90, "thorough": 1200}),
+    H(step_op, shards=lambda tier: [("act == %d" % a,) for a in range(5)],
+      timeout={"quick": 90, "thorough": 1200}),
+    H(step_run, shards=lambda tier: [("act == %d" % a,) for a in range(6)],
+      timeout={"quick": 90, "thorough": 1200}),
+    H(step_compact, shards=lambda tier: [("act == %d" % a,) for a in (0, 1, 5)],
+      timeout={"quick": 90, "thorough": 1200}, labels=("end", "compacted")),
 ]
